@@ -963,6 +963,8 @@ fn c03_configs(rng: &mut Rng, len: usize, extents: &[usize], n: usize) -> Vec<Co
         PolSpec::Times(4),
         PolSpec::Plus(17),
         PolSpec::JumpTo(40),
+        PolSpec::Hesitate(1, Box::new(PolSpec::Std)),
+        PolSpec::Hesitate(2, Box::new(PolSpec::Plus(5))),
     ];
     let mut v = vec![];
     // the first configuration is the "natural" one: everything in one buffer
